@@ -15,19 +15,22 @@ Model (JSON-serialisable; this is what Hypothesis shrinks and what replay files 
       {"t": "from",  "mod": P, "level": L, "names": [[n, as|None]..]}  from-import of module path P (L = 0: absolute)
       {"t": "from",  "mod": P, "level": L, "names": "*"}               wildcard import
       {"t": "import","mod": P, "as": z|None}                           import <top>.P [as z]
-      {"t": "all",   "op": "="|"+=", "seq": "list"|"tuple"|"set", "ann": bool,
+      {"t": "all",   "op": "="|"+=", "seq": "list"|"tuple", "ann": bool,
                      "items": ["x", ["star", "n_all"], ["plus", "m1.__all__"], ...]}
 
     optional keys understood by the renderer (used by C04): "join" (render on the previous line after ';'),
-    class "bases"/"decos", def "decos"/"returns"/"defaults", val "ann"/"value", and {"t": "raw", "text": ...}.
+    class "bases"/"decos", def "decos"/"returns"/"deco" (identity decorator leaving a tag), val "ann"/"value",
+    {"t": "raw", "text": ...}; the placeholder $TOP stands for the top-level package name everywhere.
 
 Soundness of the generated programs (why CPython can always import them, in any order):
   rule R  - a module M imports from a module Y only if Y, and every proper ancestor package of Y that is not M or an
             ancestor of M, comes before M in the import order.  By induction nothing is ever imported from a partially
             initialised module (each link of an import stack goes strictly backwards in the order).
   names   - object names, module names and `*_all` helper names come from three disjoint pools and module names are
-            unique in the package, so "a sub-module name never collides with a member name of its package" (the
-            documented precondition, docs/guide/users/recommendations/python-code.md) holds by construction.
+            unique in the package; nothing imported into a package (also through a wildcard) carries the name of one of
+            its own sub-modules except the sub-module itself imported directly, so "a sub-module name never collides
+            with a member name of its package" (the documented precondition,
+            docs/guide/users/recommendations/python-code.md) holds by construction.
   exists  - explicit imports and `__all__` items only mention names that the simulated namespace (`simulate`) knows to
             be bound at the end of the source module; names whose presence depends on import history (sub-modules of a
             wildcard source package) are never mentioned and are reported separately as `uncertain`.
@@ -299,18 +302,21 @@ def _sim_module(case, mod, out: dict, paths: set, pkgs: set) -> dict:
         old = ns.get(name)
         if old is not None:
             events.append(f"{how}-over-{old['how']}")
+        # modules this name has been bound to so far in this module (by any statement)
+        mod_origins = set(old["mod_origins"]) if old else set()
+        is_module_binding = info.get("origin") is not None and not info.get("helper")
         if how == "wild":
             # `static`: how the name was bound before any wildcard expansion; `nwild`: wildcard re-bindings since then
             static = old["static"] if old else None
-            static_origin = old["static_origin"] if old else None
             nwild = (old["nwild"] if old else 0) + 1
-            if info.get("origin") is not None and not info.get("helper") and static_origin == info["origin"]:
-                same_module.add(name)  # a wildcard re-binds the name to the module an import statement bound it to
+            if is_module_binding and info["origin"] in mod_origins:
+                same_module.add(name)  # a wildcard re-binds the name to a module it was already bound to
         else:
             static = how
-            static_origin = info.get("origin") if not info.get("helper") else None
             nwild = 0
-        ns[name] = {**info, "how": how, "static": static, "static_origin": static_origin, "nwild": nwild}
+        if is_module_binding:
+            mod_origins.add(info["origin"])
+        ns[name] = {**info, "how": how, "static": static, "mod_origins": mod_origins, "nwild": nwild}
 
     carried = ("origin", "helper", "kind", "node", "defmod")
     for index, stmt in enumerate(mod["body"]):
@@ -636,9 +642,8 @@ def packages(draw, max_mods: int = 6, max_stmts: int = 6, allow_join: bool = Fal
                 if exported & own_children:
                     continue
                 if avoid_same and any(
-                    n in cur and cur[n]["static_origin"] is not None
-                    and not sim[src]["ns"].get(n, {}).get("helper")
-                    and sim[src]["ns"].get(n, {}).get("origin") == cur[n]["static_origin"]
+                    n in cur and not sim[src]["ns"].get(n, {}).get("helper")
+                    and sim[src]["ns"].get(n, {}).get("origin") in cur[n]["mod_origins"]
                     for n in exported
                 ):
                     excluded("wildcard-rebinding-same-module-skipped")
